@@ -13,6 +13,9 @@ import (
 var namePool = []string{
 	"a", "b", "dev/x", "dev/y", "prod/x", "a\nb", "a.b", "aXb", "a+b", "(a)", "[a]", "a*b",
 	"dev/x/deep", "é/ü", "x y", "dev/", "/", "a\\b", "a$", "^a", "a|b", "a?", "{a}", "\n",
+	// the same letters in another case or another Unicode normal form, a
+	// trailing blank, an embedded NUL: all different names
+	"A", "Dev/x", "e\u0301/u\u0308", "a ", "a\x00b", "dev/x\x00",
 }
 
 var oddNames = []string{"", "_internal/cfg", "_internal/", "_internal"}
@@ -21,6 +24,7 @@ var patternPool = []string{
 	"*", "dev/*", "*/x", "a*b", "*a*", "a", "b", "dev/x", "prod/x", "nomatch", "", "**",
 	"dev/*x*", ".*", "a.b", "a+b", "[a]", "(a)", "a\n*", "*\n*", "a*", "*b", "dev/x*", "d*v/*",
 	"é/*", "x y", "_internal/*", "a\\b", "a$", "^a", "a|b", "a?", "{a}", ".", "\\*", "a\nb",
+	"A", "DEV/*", "Dev/*", "e\u0301/*", "a *", "a\x00*", "*\x00",
 }
 
 // value classes
